@@ -18,6 +18,9 @@ CHECKS = {
  "C02": ("exhaustive enumeration of conventional-class configurations x argv prefix tree, lock-step comparison with a documented-grammar reader (reference model) on every execution",
          "Every conventional configuration (<=N of 13 argument templates x <=F of 7 features, plus 8 hyphen-value configurations) x every argv in A(cfg)^<=L (quick: (2,1,3),(3,0,2),(1,1,4); thorough: (3,2,3),(2,1,4)). On every successful parse the real ArgMatches are compared with the reading of an independent documented-grammar reader: attribution per argument and occurrence, delimiter splitting, nothing invented/dropped, distinct indices reproducing argv order, subcommand dispatch. Exhaustive within these bounds.",
          "Trusted: the documented-grammar reader R1 (mc/model/src/r1.rs, shares no structure with parser.rs); lines it calls unspecified (counted in the evidence) are not compared. Flag subcommands, terminators and trailing_var_arg are outside this class (C01/C05/C09).", "DESIGN.md §3.5, §4 C02"),
+ "C03": ("exhaustive enumeration of relation graphs (all sets of <=k catalogue edges) x all orderings of all token subsets, independent relation evaluator as oracle on every successful parse, under a stall/abort supervisor",
+         "Every relation graph with <=3 (quick) / <=4 (thorough) edges from a ~75-edge catalogue (conflicts arg/group both ways, exclusive, overrides, requires, requires_if, groups multiple/required/requires/conflicts, required, required_unless any/all, required_if_eq any/all, defaults, env, subcommand settings) that clap's gate accepts x every sequence of distinct tokens of length <=4/3. On every Ok the explicit-presence set must satisfy the independent evaluator R2. Exhaustive within these bounds; a parse that does not return is isolated by the supervisor and reported.",
+         "Trusted: relation evaluator R2 (mc/model/src/r2.rs), written from the Arg/ArgGroup documentation, with the lenient group-exemption reading. One-directional (over-strict rejections are C10's business).", "DESIGN.md §3.6, §4 C03"),
 }
 PENDING_REASON = "check not built yet in this round (design in DESIGN.md §4); will be claimed when its checker exists"
 props = [json.loads(l) for l in open('/verif/properties.jsonl')]
